@@ -8,6 +8,7 @@ package retry
 
 import (
 	"context"
+	"errors"
 	"net/http"
 	"strconv"
 	"strings"
@@ -103,11 +104,43 @@ func (c Config) Validate() Config {
 	return validated
 }
 
+// StatusError is an HTTP failure whose status code is known. IsRetryableError classifies it by
+// the code alone: the text of the error (which may quote the response body) is not inspected, so
+// a body that happens to contain something like "503 " cannot turn a permanent failure into a
+// retryable one.
+type StatusError struct {
+	Code int   // HTTP status code of the response
+	Err  error // the error reported to the caller
+}
+
+// Error returns the text of the wrapped error.
+func (e *StatusError) Error() string { return e.Err.Error() }
+
+// Unwrap returns the wrapped error.
+func (e *StatusError) Unwrap() error { return e.Err }
+
+// isStatusCodeRetryable reports whether an HTTP status code is in the retryable table.
+func isStatusCodeRetryable(code int) bool {
+	c := strconv.Itoa(code)
+	for _, retryable := range retryableStatusCodes {
+		if c == retryable {
+			return true
+		}
+	}
+	return false
+}
+
 // IsRetryableError determines if an error is retryable based on its characteristics.
 // This function uses precise pattern matching to avoid false positives.
 func IsRetryableError(err error) bool {
 	if err == nil {
 		return false
+	}
+
+	// A failure with a known HTTP status is classified by that status only.
+	var statusErr *StatusError
+	if errors.As(err, &statusErr) {
+		return isStatusCodeRetryable(statusErr.Code)
 	}
 
 	errStr := strings.ToLower(err.Error())
